@@ -140,12 +140,18 @@ Fixpoint nodupb (l : list string) : bool :=
   | x :: r => negb (existsb (String.eqb x) r) && nodupb r
   end.
 
+(* a name carried by a leaf and by an internal node *)
+Definition shared_names (t : stree) : bool :=
+  existsb (fun n => existsb (String.eqb n) (leaf_names t)) (internal_names t).
+
 (* Taxonomy.__init__ for Newick input: naming mode, then _check_consistency_names
-   (with the internal-name comparison repaired, finding F6). *)
+   (with the internal-name comparison repaired, finding F6, and names shared between a leaf and an internal
+   node rejected, finding F12). *)
 Definition build_taxonomy (use_internal : bool) (t : stree) : result stree :=
   let t' := if use_internal then t else synth t in
   if negb (nodupb (leaf_names t')) then Err KeyError
   else if negb (nodupb (internal_names t')) then Err KeyError
+  else if shared_names t' then Err KeyError
   else Ok t'.
 
 (* ---------- ete3 format-8 writer (Taxonomy.tree_str / get_newick_from_tree) ---------- *)
